@@ -40,6 +40,9 @@ type PackWriter struct {
 	// promisor, when non-nil, writes a .promisor sidecar next to the pack
 	// carrying these contents. A nil value leaves the pack unmarked.
 	promisor *string
+	// onSaved, when non-nil, is called once the pack has been moved into
+	// place, before Notify.
+	onSaved func()
 }
 
 func newPackWrite(fs billy.Filesystem, format formatcfg.ObjectFormat, writeRev bool) (*PackWriter, error) {
@@ -110,8 +113,13 @@ func (w *PackWriter) Close() (err error) {
 		// Publish the index only when the pack really is in place: after a
 		// failed save the pack file does not exist, and an index announcing
 		// it would shadow loose or other packed copies of its objects.
-		if err == nil && w.Notify != nil && w.writer != nil && w.writer.Finished() {
-			w.Notify(w.checksum, w.writer)
+		if err == nil && w.writer != nil && w.writer.Finished() {
+			if w.onSaved != nil {
+				w.onSaved()
+			}
+			if w.Notify != nil {
+				w.Notify(w.checksum, w.writer)
+			}
 		}
 
 		close(w.result)
@@ -379,6 +387,8 @@ type ObjectWriter struct {
 	objfile.Writer
 	fs billy.Filesystem
 	f  billy.File
+	// onSaved, when non-nil, is called once the object file is in place.
+	onSaved func()
 }
 
 func newObjectWriter(fs billy.Filesystem, objectFormat formatcfg.ObjectFormat) (*ObjectWriter, error) {
@@ -404,7 +414,13 @@ func (w *ObjectWriter) Close() error {
 		return err
 	}
 
-	return w.save()
+	if err := w.save(); err != nil {
+		return err
+	}
+	if w.onSaved != nil {
+		w.onSaved()
+	}
+	return nil
 }
 
 func (w *ObjectWriter) save() error {
